@@ -8,7 +8,7 @@ from .. import fsmon, model, sig, syncgen
 PROP = "C13"
 LEVEL = "exploration"
 MONITORS = ["source_readonly", "jobs_present", "missing_files_copied", "dst_only_files_kept", "dst_only_keys_kept",
-            "idempotent"]
+            "idempotent", "no_recursion_unless_asked"]
 RULE = (
     "Project pairs over a small universe (0-4 jobs per side from 4 state points, overlapping/disjoint; files "
     "identical / differing / same-size-same-mtime-different-content / one-sided, nested directories two levels "
@@ -132,6 +132,13 @@ def run_case(ctx, case):
     for key, spec in dst_spec["jobs"].items():
         jid = model.model_id(syncgen.sp_of(key))
         fb, fa = job_files(d_before, jid), job_files(d_after, jid)
+        if not opts["recursive"]:
+            # sub-directories of an existing destination job are not to be touched
+            ctx.monitor("no_recursion_unless_asked")
+            nb = {k: v for k, v in fb.items() if os.sep in k or v[0] == "d"}
+            na = {k: v for k, v in fa.items() if os.sep in k or v[0] == "d"}
+            if nb != na:
+                problems.append(("subdirectory-touched-without-recursive", key, model.snap_diff(nb, na)))
         sfiles = job_files({k: v[:2] for k, v in s_before.items()}, jid) if key in src_spec["jobs"] else {}
         for rel, ent in fb.items():
             if rel in (model.SP_FILE, model.DOC_FILE) or ent[0] != "f":
